@@ -95,7 +95,7 @@ def run(ctx: Ctx):
     ctx.attempt(rules.rule_enter_installs, ctx, "D4", "TS.enter-installs", res_holders)
     # a dropped state matters here only if the call that produced it can take or give back a plug, a queue slot or a stall
     ops = {k for k, (kind, _) in states.RES.items() if kind in KINDS} | {"modify_station", "modify_base"}
-    ctx.attempt(rules.rule_state_lineage, ctx, "D2", rules.step_path_funcs(repo), "DU.state-lineage", lambda fn, c: rules.may_reach(repo, fn, c, ops))
+    ctx.attempt(rules.rule_state_lineage, ctx, "D2", rules.step_path_funcs(repo), "DU.state-lineage", lambda fn, c: rules.may_reach(repo, fn, c, ops), True)
     rules.rule_transition(ctx, "D5")
     du = repo.func(VS, "VehicleStateABC.default_update")
     ai = repo.func(SSO, "apply_instructions")
